@@ -88,7 +88,7 @@ class BoxEngine(Engine):
     stub_components = ['the caller (operation order, refused calls, scribbles on handed-out and passed-in arrays)']
     assumptions = ['no schedule or clock exists for this property; the history axis is the order of calls on one object',
                    'cells are right-handed and non-degenerate as the quantifier states',
-                   'refusals are not demanded by the statement: a refused setter that does raise must leave old or new values']
+                   'refusals are not demanded by the statement: a refused setter that does raise must leave, field by field, the old value or the valid new one it was given, and everything derived (reciprocal vectors, planes, inside/outside) must fit what is there']
 
     # ------------------------------------------------------------------
     def config(self, ctx):
